@@ -2,6 +2,7 @@ import Driver.Util
 import Sqfs.Spec.TarNumber
 import Sqfs.Model.TarSparse
 import Sqfs.Model.TarConv
+import Sqfs.Model.TarFix
 namespace Driver.C04
 open Sqfs.Tar
 
@@ -76,21 +77,6 @@ def showIter (es : List IterEntry) (e : IterEnd) : String :=
        | .eof => " data=" ++ (if r.out.length > 8192 then "big" else toHexTok r.out) ++ s!" len={r.out.length}")
   let body := " | ".intercalate (es.map one)
   (if es.isEmpty then "" else body ++ " | ") ++ (if e = .eof then "end=1" else "end=-1")
-
-/-- fold of `process_tarball` over the iterator's entries on the flat tree; `none` = tar2sqfs fails -/
-def convertWith (pe : ConvOpts → CEntry → Action) (o : ConvOpts) (es : List IterEntry) : Option (List TNode × List (List Bytes × Nat × Nat)) :=
-  es.foldl (fun acc x => match acc with
-    | none => none
-    | some (t, devs) =>
-      let link := if fmt x.mode = S_IFLNK then x.link else none
-      if fmt x.mode = S_IFLNK ∧ link.isNone then none                      -- `read_link` fails: no target
-      else
-      match pe o ⟨x.name, x.mode, x.uid, x.gid, x.mtime, x.hardLink, link, x.devMajor, x.devMinor⟩ with
-      | .skip => some (t, devs)
-      | .root e => if e.hardLink ∨ fmt e.mode ≠ S_IFDIR ∨ e.uid > 0xFFFFFFFF ∨ e.gid > 0xFFFFFFFF then none else some (t, devs)
-      | .node e => match addGeneric o t e with
-        | none => none
-        | some t' => some (t', devs ++ [(Sqfs.Path.splitSlash e.name, x.devMajor, x.devMinor)])) (some ([], []))
 
 def describeNode (devs : List (List Bytes × Nat × Nat)) (n : TNode) : String :=
   let path := toHexTok (Sqfs.Path.joinSlash n.path)
